@@ -14,3 +14,4 @@ CHECKS["C13"] = checks_vec.c13
 CHECKS["C14"] = checks_vec.c14
 CHECKS["C15"] = checks_vec.c15
 CHECKS["C16"] = checks_vec.c16
+CHECKS["C05"] = checks_vec.c05
